@@ -497,7 +497,7 @@ theorem flushModP_triple {R : St → Prop} (hR : Stable R) (m : ModId) : Triple 
       · intro _
         refine Triple.bind (Q := fun _ => R) ?_ fun _ => Triple.retR _ (fun _ h => h)
         refine Triple.weaken (Triple.quietS hR _ ?_) (fun _ _ h => h.2) (fun _ _ _ h => h)
-        exact Quiet.comp (quiet_updMod m (fun md => { md with pipe := some [] }) (fun md => rfl)) (Quiet.foldl destroyMsg quiet_destroyMsg q)
+        exact Quiet.comp (quiet_updMod m (fun md => { md with pipe := some [], pipeSkip := 0 }) (fun md => rfl)) (Quiet.foldl destroyMsg quiet_destroyMsg q)
 
 /-- `loop_start` -/
 theorem loopStartP_triple {R : St → Prop} (hR : Stable R) : Triple R loopStartP (fun _ => R) := by
@@ -508,28 +508,39 @@ theorem loopStartP_triple {R : St → Prop} (hR : Stable R) : Triple R loopStart
   refine Triple.bind (Q := fun _ => R) (Triple.quietS hR _ (quiet_tellSystem _ _ _ _)) fun _ => ?_
   exact Triple.retR _ (fun _ h => h)
 
+theorem unmodelled_triple {R : St → Prop} (hR : Stable R) (w : String) : Triple R (unmodelled w) (fun _ => R) := by
+  unfold unmodelled
+  exact Triple.bind (Q := fun _ => R) (Triple.quietS hR _ (quiet_emit _)) fun _ => Triple.retR _ (fun _ h => h)
+
 /-- `loop_stop` -/
-theorem loopStopP_triple {R : St → Prop} (hR : Stable R) : Triple R loopStopP (fun _ => R) := by
+theorem loopStopP_triple {R : St → Prop} (hR : Stable R) (cid : Nat) : Triple R (loopStopP cid) (fun _ => R) := by
   unfold loopStopP
   refine Triple.bind Triple.get fun s0 => ?_
-  refine Triple.bind (Q := fun _ => R) ?_ fun _ => ?_
-  · exact Triple.weaken (Triple.updCtx hR _ (fun _ => rfl) (fun _ => rfl)) (fun _ _ h => h.2) (fun _ _ _ h => h)
-  refine Triple.bind (Q := fun _ => R) (Triple.quietS hR _ (quiet_tellSystem _ _ _ _)) fun _ => ?_
-  refine Triple.bind (Q := fun _ => R) (iterMods_triple _ (flushModP_triple hR)) fun _ => ?_
-  refine Triple.bind Triple.get fun s => ?_
-  cases s.ctx with
-  | none => exact Triple.retR _ (fun _ h => h.2)
-  | some c =>
-    simp only
-    apply Triple.ite
-    · intro _; exact Triple.retR _ (fun _ h => h.2)
-    · intro _
-      refine Triple.bind (Q := fun _ => R) ?_ fun _ => ?_
-      · exact Triple.weaken (Triple.updCtx hR _ (fun _ => rfl) (fun _ => rfl)) (fun _ _ h => h.2) (fun _ _ _ h => h)
+  cases s0.ctx with
+  | none => exact Triple.weaken (unmodelled_triple hR _) (fun _ _ h => h.2) (fun _ _ _ h => h)
+  | some c0 =>
+  simp only
+  apply Triple.ite
+  · intro _; exact Triple.weaken (unmodelled_triple hR _) (fun _ _ h => h.2) (fun _ _ _ h => h)
+  · intro _
+    refine Triple.bind (Q := fun _ => R) ?_ fun _ => ?_
+    · exact Triple.weaken (Triple.updCtx hR _ (fun _ => rfl) (fun _ => rfl)) (fun _ _ h => h.2) (fun _ _ _ h => h)
+    refine Triple.bind (Q := fun _ => R) (Triple.quietS hR _ (quiet_tellSystem _ _ _ _)) fun _ => ?_
+    refine Triple.bind (Q := fun _ => R) (iterMods_triple _ (flushModP_triple hR)) fun _ => ?_
+    refine Triple.bind Triple.get fun s => ?_
+    cases s.ctx with
+    | none => exact Triple.retR _ (fun _ h => h.2)
+    | some c =>
+      simp only
       apply Triple.ite
+      · intro _; exact Triple.retR _ (fun _ h => h.2)
       · intro _
-        refine Triple.bind (Q := fun _ => R) (ctxDeregisterP_triple hR) fun _ => Triple.retR _ (fun _ h => h)
-      · intro _; exact Triple.retR _ (fun _ h => h)
+        refine Triple.bind (Q := fun _ => R) ?_ fun _ => ?_
+        · exact Triple.weaken (Triple.updCtx hR _ (fun _ => rfl) (fun _ => rfl)) (fun _ _ h => h.2) (fun _ _ _ h => h)
+        apply Triple.ite
+        · intro _
+          refine Triple.bind (Q := fun _ => R) (ctxDeregisterP_triple hR) fun _ => Triple.retR _ (fun _ h => h)
+        · intro _; exact Triple.retR _ (fun _ h => h)
 
 
 theorem quiet_consumeOneshot (m : ModId) (md : Mod) (msg : Msg) : Quiet (fun s => consumeOneshot s m md msg) := by
@@ -593,7 +604,7 @@ theorem recvOneP_triple {R : St → Prop} (hR : Stable R) (p : PollEnt) : Triple
           | cons msg rest =>
             simp only
             refine Triple.bind (Q := fun _ => R) ?_ fun _ => ?_
-            · exact Triple.weaken (Triple.quietS hR _ (quiet_updMod m (fun md => { md with pipe := some rest }) (fun md => rfl)))
+            · exact Triple.weaken (Triple.quietS hR _ (quiet_updMod m _ (fun md => rfl)))
                 (fun _ _ h => h.2) (fun _ _ _ h => h)
             refine Triple.bind (Q := fun _ => R) (Triple.quietS hR _ (quiet_consumeOneshot m md msg)) fun _ => ?_
             apply Triple.ite
@@ -678,12 +689,12 @@ theorem apiDispatch_triple {R : St → Prop} (hR : Stable R) : Triple R apiDispa
       · intro _; exact Triple.weaken (loopStartP_triple hR) (fun _ _ h => h.2) (fun _ _ _ h => h)
     · intro _
       apply Triple.ite
-      · intro _; exact Triple.weaken (loopStopP_triple hR) (fun _ _ h => h.2) (fun _ _ _ h => h)
+      · intro _; exact Triple.weaken (loopStopP_triple hR _) (fun _ _ h => h.2) (fun _ _ _ h => h)
       · intro _
         refine Triple.bind (Q := fun _ => R) ?_ fun b => recvEventsP_triple hR b
         exact Triple.weaken (nextBatch_triple hR) (fun _ _ h => h.2) (fun _ _ _ h => h)
 
-theorem loopBody_triple {R : St → Prop} (hR : Stable R) : ∀ n, Triple R (loopBody n) (fun _ => R) := by
+theorem loopBody_triple {R : St → Prop} (hR : Stable R) (cid : Nat) : ∀ n, Triple R (loopBody cid n) (fun _ => R) := by
   intro n
   induction n with
   | zero => unfold loopBody; exact Triple.retR _ (fun _ h => h)
@@ -714,11 +725,14 @@ theorem apiLoop_triple {R : St → Prop} (hR : Stable R) : Triple R apiLoop (fun
       apply Triple.ite
       · intro _; exact Triple.retR _ (fun _ h => h.2)
       · intro _
-        refine Triple.bind (Q := fun _ => R) ?_ fun _ => ?_
-        · exact Triple.weaken (loopStartP_triple hR) (fun _ _ h => h.2) (fun _ _ _ h => h)
-        refine Triple.bind Triple.get fun s' => ?_
-        refine Triple.bind (Q := fun _ => R) ?_ fun _ => loopStopP_triple hR
-        exact Triple.weaken (loopBody_triple hR _) (fun _ _ h => h.2) (fun _ _ _ h => h)
+        apply Triple.ite
+        · intro _; exact Triple.retR _ (fun _ h => h.2)
+        · intro _
+          refine Triple.bind (Q := fun _ => R) ?_ fun _ => ?_
+          · exact Triple.weaken (loopStartP_triple hR) (fun _ _ h => h.2) (fun _ _ _ h => h)
+          refine Triple.bind Triple.get fun s' => ?_
+          refine Triple.bind (Q := fun _ => R) ?_ fun _ => loopStopP_triple hR _
+          exact Triple.weaken (loopBody_triple hR _ _) (fun _ _ h => h.2) (fun _ _ _ h => h)
 
 
 /-! ## The public API programs -/
